@@ -85,17 +85,19 @@ Definition ctor_site (ty : str) (provided : list str) (order : list (str * bool)
 
 (* ------------------------------------------------------------------ site: trait conformance, required methods *)
 (* typechecker/check_decl.rs (model and class variant): the trait's methods are visited SORTED by name *)
-Inductive impl_state := HasBody | Implemented | Missing | Mismatch (expected found : str).
+Inductive impl_state := HasBody | Implemented | Missing | Mismatch.
 Definition trait_missing_msg (tr m : str) : str :=
   s "Trait '" ++ tr ++ s "' requires method '" ++ m ++ s "' to be implemented".
-Definition trait_diag_of (tr : str) (m : str * impl_state) : option str :=
+Definition trait_mismatch_msg (tr ty m : str) : str :=
+  s "Trait '" ++ tr ++ s "' requires '" ++ ty ++ s "'::" ++ m ++ s " to match its signature".
+Definition trait_diag_of (tr ty : str) (m : str * impl_state) : option str :=
   match snd m with
   | HasBody | Implemented => None
   | Missing => Some (trait_missing_msg tr (fst m))
-  | Mismatch e f => Some (s "mismatch " ++ fst m ++ s ": " ++ e ++ s " vs " ++ f)
+  | Mismatch => Some (trait_mismatch_msg tr ty (fst m))
   end.
-Definition trait_site (tr : str) (order : list (str * impl_state)) : list str :=
-  emit_site (trait_diag_of tr) (ksort order).
+Definition trait_site (tr ty : str) (order : list (str * impl_state)) : list str :=
+  emit_site (trait_diag_of tr ty) (ksort order).
 
 (* ------------------------------------------------------------------ site: ModuleCollector::collect (frontend/module.rs) *)
 (* the result follows the Vec `load_order`; the HashMap is only read by key (and then cleared): the
@@ -146,8 +148,9 @@ Definition hint_site (order : list str) : str := sorted_site (join (s ", ")) ord
 (* ------------------------------------------------------------------ render for the correspondence run *)
 Definition render_ctor (ty : str) (provided : list str) (fields : list (str * bool)) : list str :=
   ctor_site ty provided fields.
-Definition render_trait (tr : str) (ms : list (str * Z)) : list str :=
-  trait_site tr (map (fun m => (fst m, if snd m =? 0 then HasBody else if snd m =? 1 then Implemented else Missing)) ms).
+Definition render_trait (tr ty : str) (ms : list (str * Z)) : list str :=
+  trait_site tr ty (map (fun m => (fst m, if snd m =? 0 then HasBody else if snd m =? 1 then Implemented
+                                           else if snd m =? 2 then Missing else Mismatch)) ms).
 Definition render_layout (dirs : list path) (order : list path) : str * list str :=
   (top_level_site order, map (fun d => mod_rs_site d order) dirs).
 Definition render_manifest (name root ver : str) (serde tokio axum : bool) (order : list (str * option str)) : str :=
